@@ -46,6 +46,8 @@ type c20resp struct {
 	Token     string   `json:"token" xml:"token"`
 	RequestID string   `json:"rid" xml:"rid"`
 	Pattern   string   `json:"pattern" xml:"pattern"`
+	EarlyID   string   `json:"early_id" xml:"early_id"`
+	EarlyRest string   `json:"early_rest" xml:"early_rest"`
 }
 
 type c20req struct {
@@ -126,6 +128,19 @@ func runC20(t *verifsim.Tape, cfg engine.Config) *engine.Outcome {
 			})
 		})
 	}
+	// a muxer-level middleware that asks for the path variables BEFORE the request is routed (goa's Debug
+	// middleware and instrumentation do), then does some I/O of its own (a scheduling point), then uses them
+	useEarlyVars := t.Draw("use-early-vars-mw", 2) == 0
+	if useEarlyVars {
+		mux.Use(func(next http.Handler) http.Handler {
+			return http.HandlerFunc(func(w http.ResponseWriter, r *http.Request) {
+				v := mux.Vars(r)
+				verifsim.Yield("mw-io")
+				ctx := context.WithValue(r.Context(), earlyKey{}, [2]string{v["id"], v["rest"]})
+				next.ServeHTTP(w, r.WithContext(ctx))
+			})
+		})
+	}
 	var (
 		decoder = goahttp.RequestDecoder
 		encoder = goahttp.ResponseEncoder
@@ -166,6 +181,9 @@ func runC20(t *verifsim.Tape, cfg engine.Config) *engine.Outcome {
 			if v := ctx.Value(patKey{}); v != nil {
 				res.Pattern = v.(string)
 			}
+			if v, ok := ctx.Value(earlyKey{}).([2]string); ok {
+				res.EarlyID, res.EarlyRest = v[0], v[1]
+			}
 			enc := encoder(ctx, w)
 			w.Header().Set("X-Echo-Id", vars["id"])
 			w.WriteHeader(http.StatusOK)
@@ -184,7 +202,8 @@ func runC20(t *verifsim.Tape, cfg engine.Config) *engine.Outcome {
 	if cfg.Tier == "thorough" {
 		maxReq = 10
 	}
-	accepts := []string{"", "application/json", "application/xml", "application/gob", "application/xml; q=0.9"}
+	accepts := []string{"", "application/json", "application/xml", "application/gob", "application/xml; q=0.9",
+		"application/json; q=0.8", "application/gob;q=0.5", "application/xml; charset=utf-8", "application/json; charset=utf-8", "application/gob; q=0.9"}
 	clients := make([]*c20client, nTasks)
 	total := 0
 	for i := range clients {
@@ -282,7 +301,7 @@ func runC20(t *verifsim.Tape, cfg engine.Config) *engine.Outcome {
 		switch {
 		case strings.HasPrefix(accept, "application/xml"):
 			return "xml"
-		case accept == "application/gob":
+		case strings.HasPrefix(accept, "application/gob"):
 			return "gob"
 		}
 		return "json"
@@ -348,6 +367,9 @@ func runC20(t *verifsim.Tape, cfg engine.Config) *engine.Outcome {
 				if useResolve {
 					wantPat = map[string]string{"ok": "/echo/{id}", "wild": "/items/{id}/{*rest}"}[q.Kind]
 				}
+				if useEarlyVars && (got.EarlyID != q.ID || got.EarlyRest != q.Rest) {
+					o.Violate("leak_echo", "leak_echo:early-vars", "%s: a muxer middleware that called Vars before routing saw {id:%q rest:%q}, own request has {id:%q rest:%q}", where, got.EarlyID, got.EarlyRest, q.ID, q.Rest)
+				}
 				if got.ID != q.ID || got.Token != q.Token || got.Rest != q.Rest || r.echoID != q.ID || got.RequestID != wantRID || got.Pattern != wantPat {
 					o.Violate("leak_echo", "leak_echo", "%s: response {id:%q rest:%q token:%q rid:%q pattern:%q hdr:%q} is not the function of its own request {id:%q rest:%q token:%q rid:%q pattern:%q}",
 						where, got.ID, got.Rest, got.Token, got.RequestID, got.Pattern, r.echoID, q.ID, q.Rest, q.Token, wantRID, wantPat)
@@ -387,6 +409,7 @@ func runC20(t *verifsim.Tape, cfg engine.Config) *engine.Outcome {
 }
 
 type patKey struct{}
+type earlyKey struct{}
 
 func pathEscape(s string) string {
 	var b strings.Builder
